@@ -582,6 +582,8 @@ pub struct Ctx {
     pub wrapper_violations: Vec<String>,
     /// rounds of the wrapper scenario in which witness and control followed the edit
     pub wrapper_rounds: u64,
+    /// C05: an asset loaded, edited and notified while the reloader was busy stayed stale
+    pub busy_violations: Vec<String>,
     pub ident: Identity,
     pub watchers: HashMap<u64, assets_manager::ReloadWatcher<'static>>,
     /// the Coq text of the pass order observed during the last op that takes one
@@ -1262,6 +1264,10 @@ pub enum FeKind {
     HotAny,
     /// same, leaked (&'static): shared operations, watchers, enhance_hot_reloading
     HotLeaked,
+    /// AssetCache::without_hot_reloading on a source that supports hot-reloading: for the model a
+    /// cache without reloader, driven with the operations of a hot one (notifications, hot_reload,
+    /// reload ids, watchers), which must all find nothing to do -- in any history
+    NoHotOnHot,
 }
 
 impl FeKind {
@@ -1295,8 +1301,13 @@ pub fn run_case(kind: FeKind, ops: &[Op], ctx: &mut Ctx) -> Vec<(String, String)
     reset_tokens();
     let _ = take_trace();
     let _ = take_ledger();
-    let mem = Mem::new(kind.hot());
+    let mem = Mem::new(kind.hot() || kind == FeKind::NoHotOnHot);
     let res = match kind {
+        FeKind::NoHotOnHot => {
+            let mut c = Hot(AssetCache::without_hot_reloading(mem.clone()));
+            let p = &c.0 as *const _ as usize;
+            drive(&mut c, p, &mem, ops, ctx)
+        }
         FeKind::CacheNoHot => {
             let mut c = AssetCache::without_hot_reloading(mem.clone());
             let p = &c as *const _ as usize;
@@ -1431,6 +1442,57 @@ fn wrapper_scenario(ctx: &mut Ctx) {
     trace_enable(was);
 }
 
+/// C05 while the reloader is busy ('static mode): a slow reload is under way; meanwhile an asset is
+/// loaded for the first time (its registration waits in the cache-message channel), its file is
+/// edited and the event sent (it waits in the event channel).  Cache messages are looked at first
+/// on every turn of the reloader, so the event finds the asset registered and the asset follows.
+fn busy_reload_scenario(ctx: &mut Ctx) {
+    let was = trace_is_enabled();
+    trace_enable(false);
+    for round in 0..2 {
+        let mem = Mem::new_silent(true);
+        mem.write("slow", "wc", b"1");
+        mem.write("a", "x", b"1");
+        mem.write("b", "x", b"1");
+        let cache: &'static AssetCache<Mem> = Box::leak(Box::new(AssetCache::with_source(mem.clone())));
+        if cache.load::<TWideC>("slow").is_err() {
+            continue;
+        }
+        cache.enhance_hot_reloading();
+        std::thread::sleep(std::time::Duration::from_millis(50));
+        mem.write("slow", "wc", b"m2");
+        mem.send(vec![assets_manager::source::OwnedDirEntry::File("slow".into(), "wc".into())]);
+        std::thread::sleep(std::time::Duration::from_millis(80));
+        // the reloader is inside the slow loader now
+        let (Ok(a), Ok(b)) = (cache.load::<TInt>("a"), cache.load::<TInt>("b")) else { continue };
+        mem.write("a", "x", b"2");
+        mem.write("b", "x", b"2");
+        if round == 0 {
+            mem.send(vec![assets_manager::source::OwnedDirEntry::File("a".into(), "x".into())]);
+            mem.send(vec![assets_manager::source::OwnedDirEntry::File("b".into(), "x".into())]);
+        } else {
+            mem.send(vec![
+                assets_manager::source::OwnedDirEntry::File("a".into(), "x".into()),
+                assets_manager::source::OwnedDirEntry::File("b".into(), "x".into()),
+            ]);
+        }
+        let t0 = std::time::Instant::now();
+        while (a.read().0.n != 2 || b.read().0.n != 2) && t0.elapsed() < std::time::Duration::from_secs(4) {
+            std::thread::sleep(std::time::Duration::from_millis(10));
+        }
+        let (va, vb) = (a.read().0.n, b.read().0.n);
+        if (va != 2 || vb != 2) && ctx.busy_violations.len() < 5 {
+            ctx.busy_violations.push(format!(
+                "'static mode, reloader busy with a slow reload; meanwhile a and b were loaded (value 1), edited to 2 and notified ({}): 4 s later a = {va}, b = {vb}",
+                if round == 0 { "one event each" } else { "one batch" }
+            ));
+        }
+    }
+    let _ = take_ledger();
+    let _ = take_trace();
+    trace_enable(was);
+}
+
 fn wrapper_round(cache: &AssetCache<Mem>, mem: &Mem, ctx: &mut Ctx, what: &str) {
     use assets_manager::OnceInitCell;
     let never = assets_manager::verif_hooks::reload_id_raw(assets_manager::ReloadId::NEVER);
@@ -1508,6 +1570,7 @@ pub fn run(a: &Args) {
         key_sweep(if a.thorough() { 40000 } else { 4000 }, &mut ctx);
         if mode != "cold" {
             wrapper_scenario(&mut ctx);
+            busy_reload_scenario(&mut ctx);
         }
     }
     let mut op_hist: std::collections::BTreeMap<String, u64> = Default::default();
@@ -1551,6 +1614,7 @@ pub fn run(a: &Args) {
                 FeKind::HotAny,
                 FeKind::HotLeaked,
                 FeKind::HotLeaked,
+                FeKind::NoHotOnHot,
             ],
         };
         let kind = *rng.pick(kinds);
@@ -1558,7 +1622,7 @@ pub fn run(a: &Args) {
             threads_ok: !matches!(kind, FeKind::Local | FeKind::LocalAny),
             spicy: rng.chance(1, 3),
             mutable: kind != FeKind::HotLeaked,
-            hot: kind.hot(),
+            hot: kind.hot() || kind == FeKind::NoHotOnHot,
             leaked: kind == FeKind::HotLeaked,
         };
         let maxlen = if rng.chance(1, 5) { 60 } else { 25 };
@@ -1648,6 +1712,7 @@ pub fn run(a: &Args) {
             ("value-not-dropped-exactly-once", &ctx.ledger_violations),
             ("key-type-confusion", &ctx.key_violations),
             ("non-reloadable-rewritten", &ctx.wrapper_violations),
+            ("stale-after-pass", &ctx.busy_violations),
         ] {
             for v in list.iter().take(5) {
                 f.push_str(&format!(
